@@ -309,6 +309,64 @@ def structured_state(model, rs, x):
     return x
 
 
+def tiny_slip(model, rs, x):
+    """Scale the tangential part of the interface displacement (hence the slip) on every
+    second fracture cell down to ~1e-9 .. 1e-10, keeping the normal part."""
+    es = model.equation_system
+    nd = model.nd
+    x = x.copy()
+    for var in es.variables:
+        if var.name != "u_interface":
+            continue
+        dofs = es.dofs_of([var])
+        nc = dofs.size // nd
+        u = x[dofs].reshape((nd, nc), order="F")
+        frac = model.mdg.interface_to_subdomain_pair(var.domain)[1]
+        normal_axis = int(np.argmin(np.ptp(frac.nodes, axis=1)[:nd]))
+        for c in range(nc // 2, nc):
+            if (c % 2) == 0:
+                for a in range(nd):
+                    if a != normal_axis:
+                        u[a, c] = rs.choice([3.0, -2.0, 1.5]) * 2.0 ** rs.choice([-30, -31, -33])
+                        u[a, c - nc // 2] = 0.0
+        x[dofs] = u.ravel("F")
+    return x
+
+
+def exact_directional_check(model, x, J, rs, ndirs=2):
+    """For every equation whose translated tree contains an l2_norm node: the directional
+    derivative of the tree's plain evaluation in 50-digit arithmetic (step 1e-30, far below
+    any slip) against the assembled Jacobian rows.  Returns the list of bad rows."""
+    es = model.equation_system
+    L = C01.Lib("mp")
+    h = C01.mp.mpf(10) ** (-30)
+    bad, checked = [], 0
+    for name, eq in es.equations.items():
+        idx = es.assembled_equation_indices.get(name)
+        if idx is None or len(idx) == 0:
+            continue
+        try:
+            kind, tree = translate(eq, es)
+        except Untranslatable:
+            continue
+        if kind != "t" or not any(t[0] == "l2" for t in C01.subtrees(tree)):
+            continue
+        for _ in range(ndirs):
+            v = rs.standard_normal(x.size)
+            xp = [[L.c(float(a)) + h * L.c(float(b)) for a, b in zip(x, v)]]
+            xm = [[L.c(float(a)) - h * L.c(float(b)) for a, b in zip(x, v)]]
+            fp = C01.plain(tree, xp, L, False)
+            fm = C01.plain(tree, xm, L, False)
+            jv = J[idx] @ v
+            scale = abs(J[idx]) @ np.abs(v)
+            for i in range(len(idx)):
+                d = float((fp[i] - fm[i]) / (2 * h))
+                checked += 1
+                if abs(d - jv[i]) > 1e-6 * (scale[i] + abs(d)) + 1e-9:
+                    bad.append([name, int(idx[i]), float(jv[i]), d])
+    return bad, checked
+
+
 # ----------------------------------------------------------------------------------------
 # numerical tie of the census: each real equation, translated node by node into the C01
 # tree language with the real matrices/arrays as constants, evaluates (value and
@@ -565,6 +623,13 @@ class C03(Prop):
                         ("Poromechanics", 3, True, 3), ("Thermoporomechanics", 3, True, 3),
                         ("MassAndEnergyBalance", 3, True, 3), ("MomentumBalance", 3, True, 3),
                         ("Poromechanics", 3, False, 3)]
+        # 3-D contact with slips of ~1e-9 on some cells (l2_norm of a tiny vector), checked
+        # against the exact directional derivative of the translated tree
+        yield {"family": "MomentumBalance", "nfrac": 1, "cartesian": True, "dim": 3,
+               "state": "tinyslip", "seed": rng.randrange(10 ** 6), "amplitude": 0.3}
+        if tier != "quick":
+            yield {"family": "Poromechanics", "nfrac": 1, "cartesian": True, "dim": 3,
+                   "state": "tinyslip", "seed": rng.randrange(10 ** 6), "amplitude": 0.3}
         i = 0
         while i < n:
             fam, nf, cart, dim = configs[(i // 2) % len(configs)]
@@ -595,8 +660,10 @@ class C03(Prop):
         for attempt in range(8):
             x = x_init + case["amplitude"] * rs.uniform(-1.0, 1.0, size=x_init.size) + \
                 0.5 * case["amplitude"]
-            if case.get("state") == "structured":
+            if case.get("state") in ("structured", "tinyslip"):
                 x = structured_state(m, rs, x)
+            if case.get("state") == "tinyslip":
+                x = tiny_slip(m, rs, x)
             es.set_variable_values(x, iterate_index=0)
             rep = kink_report(m, nodes)
             margin = min([r["margin"] for r in rep.values()], default=1.0)
@@ -651,8 +718,14 @@ class C03(Prop):
                     "bad_rows": [int(b) for b in bad[:5]],
                     "bad_detail": [[float(jv[b]), float(fds[1][b]), float(scale[b])] for b in bad[:5]],
                 })
-            return {"dofs": int(x.size), "blocks": blocks, "dirs": dirs, "kinks": kinks,
-                    "kink_margin": float(margin), "tree_tie": tie}
+            out = {"dofs": int(x.size), "blocks": blocks, "dirs": dirs, "kinks": kinks,
+                   "kink_margin": float(margin), "tree_tie": tie}
+            if case.get("state") == "tinyslip":
+                es.set_variable_values(x, iterate_index=0)
+                bad, checked = exact_directional_check(m, x, J, rs)
+                out["exact_rows_checked"] = checked
+                out["exact_bad"] = bad[:5]
+            return out
         finally:
             es.set_variable_values(x_init, iterate_index=0)
 
@@ -674,6 +747,11 @@ class C03(Prop):
                 self._tree[k] = max(self._tree[k], t[k])
             self._tree["untranslatable"].update(t["untranslatable"])
             self._tree["mismatch"].update(fam + ":" + n for n in t["mismatch"])
+        if res.get("exact_bad"):
+            name, row, jv, d = res["exact_bad"][0]
+            return (f"row {row} ({name}): (J v) = {jv!r} but the exact (50-digit) directional "
+                    f"derivative of the equation's tree is {d!r}")
+        self._exact = getattr(self, "_exact", 0) + res.get("exact_rows_checked", 0)
         for d in res["dirs"]:
             self._checked += d["rows"] - d["inconsistent_rows"]
             self._skipped += d["inconsistent_rows"]
@@ -722,6 +800,7 @@ class C03(Prop):
                 "kink_margin": KINK_MARGIN,
                 "tree_tie_numeric": tr,
                 "oracle_rows_checked": self._checked,
+                "oracle_rows_checked_exactly_at_tiny_slip": getattr(self, "_exact", 0),
                 "oracle_rows_skipped_nonsmooth": self._skipped}
 
     def search(self, rng, seeds, budget_s):
